@@ -13,7 +13,22 @@ from typing import Callable, List, Optional, Sequence
 
 import numpy as np
 
+from vf.core import Reject
+
 EPS = 1e-12
+
+
+class UnsupportedDraw(Reject):
+    """The code under test drew randomness through an API (or in a shape) the script cannot control: the case cannot be
+    decided by branch enumeration.  A rejection (counted and reported), never a violation: how a simulator consumes its
+    random stream is not part of any property."""
+
+    def __init__(self, what):
+        super().__init__(f"scripted-prng: unscripted randomness API used by the code under test ({what})")
+
+
+_UNSCRIPTED = ("uniform", "normal", "standard_normal", "multinomial", "binomial", "permutation", "shuffle", "bytes", "integers",
+               "exponential", "poisson", "beta", "gamma", "random_integers", "tomaxint", "multivariate_normal", "dirichlet")
 
 
 class SpyFloat:
@@ -45,6 +60,11 @@ class SpyFloat:
 
     def __float__(self):
         return 0.5
+
+    def _unsupported(self, *a, **k):
+        raise UnsupportedDraw("random() value used other than by `p -= w; p < 0`")
+
+    __gt__ = __le__ = __add__ = __radd__ = __rsub__ = __mul__ = __rmul__ = __truediv__ = __rtruediv__ = __array__ = _unsupported
 
 
 class ScriptedPRNG:
@@ -122,6 +142,13 @@ class ScriptedPRNG:
     random_sample = random
     rand = lambda self, *shape: self.random(shape if shape else None)  # noqa: E731
 
+    def __getattr__(self, name):
+        if name in _UNSCRIPTED:
+            def stub(*a, **k):
+                raise UnsupportedDraw(name)
+            return stub
+        raise AttributeError(name)
+
     def __deepcopy__(self, memo):  # one shared stream, like a RandomState passed by reference
         return self
 
@@ -156,6 +183,8 @@ def enumerate_branches(run: Callable[[ScriptedPRNG], object], max_branches: int 
         for i in range(len(prng.log)):
             e = prng.log[i]
             if e.get("kind") == "random":
+                if not e["weights"]:
+                    raise UnsupportedDraw("random() value never compared through `p -= w; p < 0`")
                 if not e.get("hit"):
                     dead = True  # scripted index beyond the last Kraus operator: not a real branch
                     break
